@@ -22,6 +22,12 @@ structure NodeObj where
   necessary : Bool := true
   defOne : Bool := false      -- `defense_status == 1.0`
   suppress : Bool := false    -- `'suppress' in tags`
+  ttc : String := "null"      -- canonical JSON text of `ttc`
+  defense : Option String := none   -- `defense_status` (canonical float text)
+  exist : Option Bool := none       -- `existence_status`
+  mitre : Option String := none     -- `mitre_info`
+  tags : List String := []
+  extras : String := "{}"           -- canonical JSON text of `extras`
   children : List Nat := []
   parents : List Nat := []
   compBy : List Nat := []
